@@ -32,6 +32,10 @@ const (
 func countLines(r io.Reader) uint64 {
 	var count uint64
 	fileScanner := bufio.NewScanner(r)
+	// the same line limit as in GetMessages: with the default limit (64 KiB)
+	// counting stopped at the first longer line and offsets were reused
+	buf := make([]byte, 0, 64*1024)
+	fileScanner.Buffer(buf, 1024*1024)
 
 	for fileScanner.Scan() {
 		count++
